@@ -275,6 +275,10 @@ fn cycles() -> Vec<(&'static str, String)> {
         ("directive_cycle_via_input_field", "directive @d(a: I) on INPUT_FIELD_DEFINITION\ninput I { f: Int @d }\ntype Query { a(i: I): Int }".into()),
         ("input_self_cycle_nonnull", "input I { f: I! }\ntype Query { a(i: I): Int }".into()),
         ("input_cycle_via_list", "input I { f: [I!]! }\ntype Query { a(i: I): Int }".into()),
+        ("input_cycle_behind_acyclic_prefix", "input A { b: B! }\ninput B { c: C! }\ninput C { b: B! }\ntype Query { a(i: A): Int }".into()),
+        ("input_cycle_behind_two_prefixes", "input A { b: B! c: D! }\ninput D { b: B! }\ninput B { c: C! }\ninput C { d: E! }\ninput E { b: B! }\ntype Query { a(i: A): Int }".into()),
+        ("directive_cycle_behind_acyclic_prefix", "directive @a(x: Int @b) on ARGUMENT_DEFINITION\ndirective @b(x: Int @c) on ARGUMENT_DEFINITION\ndirective @c(x: Int @b) on ARGUMENT_DEFINITION\ntype Query { a: Int }".into()),
+        ("interface_cycle_behind_acyclic_prefix", "interface A implements B & C { a: Int }\ninterface B implements C { a: Int }\ninterface C implements B { a: Int }\ntype Query { a: A }".into()),
         ("interface_self_implements", "interface A implements A { a: Int }\ntype Query { a: A }".into()),
         ("interface_cycle", "interface A implements B { a: Int }\ninterface B implements A { a: Int }\ntype Query { a: A }".into()),
         ("union_of_itself", "union U = U\ntype Query { u: U }".into()),
@@ -387,6 +391,50 @@ pub fn run(ctx: &mut Ctx) {
                 let (kind, t) = src.random(&mut rng);
                 let _ = kind;
                 check_case(ctx, &t, "hostile_text", None);
+            }
+            9 if rng.chance(1, 3) => {
+                // random reference graphs between type-system definitions: input objects through
+                // (non-)null / list fields, directive definitions through directives on their
+                // arguments, interfaces through `implements` (cycles behind acyclic prefixes, diamonds)
+                let n = rng.range(2, 7);
+                let mut t = String::new();
+                let kind = rng.below(3);
+                for i in 0..n {
+                    let mut refs: Vec<usize> = Vec::new();
+                    for j in 0..n {
+                        if rng.chance(1, 3) {
+                            refs.push(j);
+                        }
+                    }
+                    match kind {
+                        0 => {
+                            let mut body = String::from("x: Int ");
+                            for j in &refs {
+                                let ty = match rng.below(5) {
+                                    0 | 1 | 2 => format!("I{j}!"),
+                                    3 => format!("I{j}"),
+                                    _ => format!("[I{j}!]!"),
+                                };
+                                body.push_str(&format!("f{j}: {ty} "));
+                            }
+                            t.push_str(&format!("input I{i} {{ {body}}}\n"));
+                        }
+                        1 => {
+                            let apps: String = refs.iter().map(|j| format!(" @d{j}")).collect();
+                            t.push_str(&format!("directive @d{i}(x: Int{apps}) on ARGUMENT_DEFINITION\n"));
+                        }
+                        _ => {
+                            let imp = if refs.is_empty() { String::new() } else { format!(" implements {}", refs.iter().map(|j| format!("N{j}")).collect::<Vec<_>>().join(" & ")) };
+                            t.push_str(&format!("interface N{i}{imp} {{ a: Int }}\n"));
+                        }
+                    }
+                }
+                t.push_str(match kind {
+                    0 => "type Query { a(i: I0): Int }\n{ a }\n",
+                    1 => "type Query { a(x: Int @d0): Int }\n",
+                    _ => "type Query { a: N0 }\n",
+                });
+                check_case(ctx, &t, "random_definition_graph", None);
             }
             9 if rng.bool() => {
                 // random fragment spread graphs (cycles reached behind acyclic prefixes, diamonds)
